@@ -1,13 +1,17 @@
 """Level texts for MANIFEST.json (one entry per claimed property)."""
-NOTES = ("Every check = regenerate Lz4V/Gen from /repo, lake build + axiom audit of the property's theorems, differential run of the "
-         "Lean models against the real code, independent Lean specification as oracle on the real code's outputs, search on failure. "
+NOTES = ("Every check = regenerate Lz4V/Gen from /repo (constants, leaf functions, and a hash of the comment-free syntax tree of every library function: the "
+         "source ties, compared with baseline_ties.json), lake build + axiom audit of the property's theorems, differential run of the "
+         "Lean models against the real code, independent Lean specification as oracle on the real code's outputs, search on failure. A code change in a function "
+         "a property's models stand on that the runs cannot tell from the model is reported as VIOLATION ... no-failing-input-found. "
          "See DESIGN.md.")
 NOT_APPLICABLE = {}
 _BLOCK_NOTE = ("Trusted: Lean kernel; the hand-written block-format specification (Lz4V/Spec/Block.lean); the hand-written models, tied to "
-               "the code by regenerated constants/leaf functions and by byte-exact differential runs; Go runtime; lengths < 2^62.")
+               "the code by regenerated constants/leaf functions, by the source ties (hash of every modelled function's syntax tree against baseline_ties.json) "
+               "and by byte-exact differential runs; Go runtime; lengths < 2^62.")
 _FRAME_NOTE = ("Trusted: Lean kernel; the hand-written frame/legacy specification (Lz4V/Spec/Frame.lean) and block/XXH32 specifications; the "
                "hand-written Writer/Reader models (Lz4V/Model/FrameW.lean, FrameR.lean) tied to the code by regenerated constants, flag getters and "
-               "state values and by differential runs comparing every call's result and every sink write; scripted sinks/sources of the harness; "
+               "state values, by the source ties (hash of every modelled function's syntax tree against baseline_ties.json) and by differential runs comparing "
+               "every call's result and every sink write; scripted sinks/sources of the harness; "
                "Go runtime. Concurrency > 1 is compared on delivered bytes and results (not on read-ahead), see C08.")
 CHECKS = {
     "C02": dict(text="Writer and Reader models agree with the real objects on every call result and every sink write over the option matrix, input sizes around block "
